@@ -95,6 +95,7 @@ func cmdRun(args []string) int {
 		simrt.MaxPreemptSeen = 0
 		lastGenOps = 0
 		wideValues = false
+		runTag = ""
 		if os.Getenv("VERIF_PROGRESS") != "" {
 			fmt.Println("SEED", seed) // progress marker: lets the driver attribute a fatal runtime error
 		}
